@@ -6,6 +6,7 @@
    py_gql/lang/printer.py (Lang/PrinterModel.v); [string_value], [block_value],
    [block_string_value], [strip_doc] are the specification side
    (Spec/PrinterSpec.v: GraphQL June 2018, 2.9.4). *)
+From PyGql Require Import Lang.Parser Proofs.PrinterRoundtrip.
 From PyGql Require Import Lang.PrinterModel Spec.PrinterSpec Proofs.PrinterProofs.
 
 (* Quoted strings: reading the printed form of ANY string s (every code
@@ -79,6 +80,18 @@ Definition C03_roundtrip_full (parse : str -> outcome document) : Prop :=
   forall d src ind, parse src = Ok d -> all_ws ind ->
     parse (print_ast ind true d) = Ok (strip_doc d).
 
+(* A composed instance of the law over the parser model Lang/Parser.v (the
+   model of py_gql.lang.parser that C01/C02 tie to the implementation): for
+   every type whose names are Names and that has no doubled "!" (what the
+   parser produces), with locations off, parsing the printed type gives the
+   type back with its locations erased.  Uses C01's acceptance = derivability
+   (completeness half) and a lexing lemma for printed types. *)
+Theorem C03_type_roundtrip : forall fl t,
+  no_location fl = true -> wf_ty t ->
+  parse_type_str fl (pr_type t) = Ok (strip_ty t).
+Proof. exact type_roundtrip. Qed.
+Print Assumptions C03_type_roundtrip.
+
 (* It is false for every parser, because descriptions of fields, arguments,
    input fields and enum values are not printed: two trees that differ (even
    after erasing locations) print to the same text for every indent. *)
@@ -120,3 +133,16 @@ Example C03_example_quote :
   json_quote [34; 92; 10; 7; 128512]%N
   = [34; 92; 34; 92; 92; 92; 110; 92; 117; 48; 48; 48; 55; 128512; 34]%N.
 Proof. vm_compute. reflexivity. Qed.
+
+Example C03_example_type :
+  let nm x := Name (str_of_string x) (Some (1, 2)%nat) in
+  let t := TNonNull (TList (TList (TNonNull (TNamed (nm "Foo_1") None) None) None) (Some (0, 9)%nat)) None in
+  wf_ty t /\ pr_type t = str_of_string "[[Foo_1!]]!"
+  /\ parse_type_str (Flags true false false) (pr_type t) = Ok (strip_ty t).
+Proof.
+  cbv zeta. split; [|split; [reflexivity|]].
+  - simpl. repeat split. exists 70%N, (str_of_string "oo_1"). split; [reflexivity|]. split; [reflexivity|].
+    repeat constructor.
+  - apply type_roundtrip; [reflexivity|]. simpl. repeat split.
+    exists 70%N, (str_of_string "oo_1"). split; [reflexivity|]. split; [reflexivity|]. repeat constructor.
+Qed.
